@@ -46,6 +46,11 @@ type Config struct {
 	// frozen for a simulated duration up to HoldMax while everything else goes on).
 	Holds   int
 	HoldMax time.Duration
+	// HoldFocusAt, if positive, concentrates the slow-task faults on the steps taken at
+	// simulated instants in [HoldFocusAt, HoldFocusAt+HoldFocusFor] (measured from Epoch):
+	// outside that window almost none is spent. A scenario points it at the instant of the
+	// event whose neighbourhood it wants stretched (a Shutdown, a sweep, a timeout).
+	HoldFocusAt, HoldFocusFor time.Duration
 	// PoolAdversarial lets Pool.Get return any retained object or a fresh one.
 	PoolAdversarial bool
 	// StarveSite, if not empty, names a spawn-site substring whose tasks get no
@@ -506,6 +511,13 @@ func Run(root func(), c Config, s *Tape) Result {
 					// a Close that takes a while: the window between a decision taken under a
 					// lock and the release of the resource it was taken for
 					holdOdds = 32
+				}
+				if cfg.HoldFocusAt > 0 {
+					if at := now.Sub(Epoch); at >= cfg.HoldFocusAt && at <= cfg.HoldFocusAt+cfg.HoldFocusFor {
+						holdOdds = 96
+					} else {
+						holdOdds = 1
+					}
 				}
 				if holdsLeft > 0 && r>>7 >= 512-holdOdds && cfg.HoldMax > 0 {
 					// slow-task fault: freeze this gate for a simulated duration
